@@ -3,9 +3,9 @@
    writes CaseOf(p) for each to kdf_cases.ndjson.  Families selects which derivations
    are enumerated in this run (the driver runs several TLC processes in parallel);
    Deep = TRUE additionally enumerates EVERY output length 0..512 for the core PRFs. *)
-EXTENDS TLSKDF, TLC, Json, SequencesExt
+EXTENDS TLSKDFSeq, TLC, Json, SequencesExt
 
-CONSTANTS Families, Deep, Full, Out
+CONSTANTS Families, Deep, Full, Out, SeqOut      \* SeqOut: file for the use-after-mutation programs (family "seq")
 
 P(fn, ver, suite, h, label, ll, sl, dl, cl, n, tp) ==
   [fn |-> fn, ver |-> ver, suite |-> suite, h |-> h, label |-> label, ll |-> ll, sl |-> sl,
@@ -116,6 +116,13 @@ MainClass(p) ==
     [] OTHER -> TRUE
 ParamSeq == SetToSeq({p \in Params : InDomain(p) /\ Keep(p, MainClass(p))})
 Cases == [i \in 1..Len(ParamSeq) |-> CaseOf(ParamSeq[i])]
+
+ASSUME "seq" \in Families =>
+  LET sc == SetToSeq(SeqCases) IN
+  /\ \A i \in 1..Len(sc) : \A j \in 1..Len(sc[i].expect) : \A k \in 1..Len(sc[i].expect[j].allowed) :
+        WellFormed(sc[i].expect[j].allowed[k])
+  /\ ndJsonSerialize(SeqOut, sc)
+  /\ PrintT(<<"SEQCASES", Len(sc)>>)
 
 ASSUME LET cs == Cases IN
   /\ \A i \in 1..Len(cs) : \A j \in 1..Len(cs[i].out) : WellFormed(cs[i].out[j])
